@@ -53,7 +53,7 @@ LoadEvent(e) ==
                       (* output latch unknown until the next DR write; the timer runs with whatever TCR says, phase unknown *)
                       !.ports = [k \in Ports |-> [ddr |-> RunVal0(e.pk, DdrLo + k - 1), latch |-> 0, written |-> FALSE, pin |-> RunVal0(e.pk, DrLo + k - 1)]],
                       !.odr = [k \in Ports |-> RunVal0(e.pk, DrLo + k - 1)],
-                      !.tm = TimerWrite(TimerTraceInit, TCR0, RunVal0(e.pk, TCR0), <<>>), !.paused = FALSE, !.stopped = FALSE, !.exit = IF "exit" \in DOMAIN e THEN e.exit[1] * P16 + e.exit[2] ELSE -1]
+                      !.tm = TimerWrite(TimerTraceInit, TCR0, RunVal0(e.pk, TCR0), <<>>), !.paused = FALSE, !.stopped = FALSE, !.kf = 0, !.exit = IF "exit" \in DOMAIN e THEN e.exit[1] * P16 + e.exit[2] ELSE -1]
 
 SameBag(a, b) == Len(a) = Len(b) /\ \A v \in 0..255 : Cardinality({i \in 1..Len(a) : a[i] = v}) = Cardinality({i \in 1..Len(b) : b[i] = v})
 (* `snap`: a state snapshot logged every few thousand iterations of a long run.  As the FIRST event of a  *)
@@ -279,8 +279,12 @@ ItEvent(e) ==
       (* lite: the instruction stream is continuous (an interrupt may intervene), nothing but sync is said *)
       liteOK == /\ (e.pcb = <<vS.pc \div P16, vS.pc % P16>> \/ \E v \in 1..255 : CanAccept(vS, vPend, v))
                 /\ e.msgs = (IF crossed THEN <<SyncMsg(sum2)>> ELSE <<>>)
+      (* the amount booked for the iteration is the instruction's own charge (C20) times ONE speed factor for the  *)
+      (* whole run (the emulator's "temporary speed adjustment"; whatever its value, it is the same every time)     *)
+      costed == ~lite /\ found /\ ~anyx /\ x.res = "ok" /\ x.cyc > 0
+      chargeOK == ~costed \/ (IF vR.kf = 0 THEN e.st > 0 /\ e.st % x.cyc = 0 ELSE e.st = vR.kf * x.cyc)
       ok == /\ ~vPaused /\ ~vStopped /\ vS.pc # vExit
-            /\ found
+            /\ found /\ chargeOK
             /\ (IF lite THEN liteOK ELSE (anyx \/ (memOK /\ msgOK /\ e.con = x.con /\ PortsReadOK(acc.ports, e.dr))))
             /\ e.sum = sum2
             /\ sub
@@ -294,10 +298,11 @@ ItEvent(e) ==
              \o (IF found /\ ~anyx /\ ~PortsReadOK(acc.ports, e.dr) THEN <<"port read-back">> ELSE <<>>)
              \o (IF lite /\ ~liteOK THEN <<"instruction stream not continuous, or a message other than the due sync">> ELSE <<>>)
              \o (IF e.sum # sum2 THEN <<"state count">> ELSE <<>>)
+             \o (IF ~chargeOK THEN <<"amount booked is not the instruction's charge times the run's speed factor">> ELSE <<>>)
              \o (IF ~sub THEN <<"pending request lost">> ELSE <<>>)
              \o (IF ~tk.ok THEN <<"timer: " \o tk.why>> ELSE <<>>)
   IN /\ IF ok \/ PROP = "C15" THEN TRUE ELSE Rep("MISMATCH", e @@ [res |-> "it"], RowName(x), why)
-     /\ vR' = [vR EXCEPT !.s = PostState(e, WrAll(tk.bm, e.wr)), !.pend = e.pend, !.req = <<>>, !.ent = <<>>, !.sum = e.sum, !.ports = acc.ports, !.odr = [n \in Ports |-> e.dr[n]], !.tm = tk.tm, !.cov = cov \cup {<<"it", RowName(x)>>} \cup (IF c # 0 THEN {<<"it", "interrupt accepted">>} ELSE {}) \cup (IF crossed THEN {<<"it", "sync">>} ELSE {})]
+     /\ vR' = [vR EXCEPT !.s = PostState(e, WrAll(tk.bm, e.wr)), !.pend = e.pend, !.req = <<>>, !.ent = <<>>, !.sum = e.sum, !.ports = acc.ports, !.odr = [n \in Ports |-> e.dr[n]], !.tm = tk.tm, !.kf = (IF vR.kf = 0 /\ costed /\ chargeOK THEN e.st \div x.cyc ELSE vR.kf), !.cov = cov \cup {<<"it", RowName(x)>>} \cup (IF c # 0 THEN {<<"it", "interrupt accepted">>} ELSE {}) \cup (IF crossed THEN {<<"it", "sync">>} ELSE {})]
 
 RetEvent(e) ==
   LET acc0 == [ports |-> vPorts, mem |-> M(vS), tm |-> vTm, mi |-> 1, ok |-> TRUE, paused |-> vPaused, stopped |-> vStopped, dub |-> FALSE]
@@ -346,7 +351,7 @@ Init == /\ l = 1
         /\ vR = [s |-> [er |-> [n \in 0..7 |-> <<0, 0>>], ccr |-> 0, pc |-> 0, ov |-> <<>>, li |-> 1],
                  pend |-> <<>>, req |-> <<>>, ent |-> <<>>, sum |-> <<0, 0>>,
                  ports |-> [k \in Ports |-> PortInit], odr |-> [k \in Ports |-> 0], tm |-> TimerTraceInit,
-                 paused |-> FALSE, stopped |-> FALSE, exit |-> -1, cov |-> {}]
+                 paused |-> FALSE, stopped |-> FALSE, exit |-> -1, kf |-> 0, cov |-> {}]
 Next == Consume \/ Finish
 Spec == Init /\ [][Next]_vars
 =============================================================================
